@@ -31,6 +31,7 @@ unsafe impl GlobalAlloc for Counting {
 static GLOBAL: Counting = Counting;
 
 mod frame;
+mod gen_um;
 mod enc;
 thread_local! { pub static LAST_PANIC: std::cell::RefCell<String> = std::cell::RefCell::new(String::new()); }
 pub fn last_panic() -> String { LAST_PANIC.with(|p| p.borrow().clone()) }
@@ -60,6 +61,25 @@ fn handle(ws: &[&str]) -> String {
         ["wframe", exp, dir, len, fill] => frame::wframe(exp, dir, len.parse().unwrap_or(0), fill.parse().unwrap_or(0)),
         ["rframe", exp, dir, api, hdr, len, fill, extra] => frame::rframe(exp, dir, api, hdr, len.parse().unwrap_or(0), fill.parse().unwrap_or(0), extra.parse().unwrap_or(0)),
         ["seq", exp, dir, api, lens] => frame::seq(exp, dir, api, lens),
+        ["um", exp, kind, ops] => {
+            let mut v = Vec::new();
+            for o in ops.split(',') {
+                let parts: Vec<&str> = o[1..].split(':').collect();
+                let op = match (&o[..1], parts.as_slice()) {
+                    ("s", [b, x]) => gen_um::UmOp::Set(b.parse().unwrap_or(0), x.parse().unwrap_or(0)),
+                    ("g", [b, lo, hi]) => gen_um::UmOp::Guid(b.parse().unwrap_or(0), lo.parse().unwrap_or(0), hi.parse().unwrap_or(0)),
+                    ("r", _) => gen_um::UmOp::Reset,
+                    ("m", _) => gen_um::UmOp::Mark,
+                    _ => return "bad-op".into(),
+                };
+                v.push(op);
+            }
+            match gen_um::um_run(exp, kind, &v) {
+                Some(Ok(w)) => format!("ok {}", hex(&w)),
+                Some(Err(e)) => format!("err {e}"),
+                None => "bad-op".into(),
+            }
+        }
         ["eseq", exp, dir, api, key, msgs] => enc::eseq(exp, dir, api, key, msgs),
         ["cipherlaw", exp, key, data] => enc::cipherlaw(exp, key, data),
         ["codec", lib, dir, hex] => codec::codec(lib, dir, hex),
